@@ -180,6 +180,10 @@ func (sc *c13Scenario) Run(s *simrt.Sim) {
 				reply(r, ask)
 			})
 		case "never":
+		case "reply-then-close":
+			// the graceful-stop idiom: answer the last question, then close oneself
+			reply(r, ask)
+			self.Close()
 		}
 	})
 	proxy := &c13Proxy{a: actor, s: s, reqs: func(m int) *c13Req { return byMsg[m] }}
@@ -292,6 +296,23 @@ func (sc *c13Scenario) Run(s *simrt.Sim) {
 			Detail: fmt.Sprintf("follow-up %s: the actor no longer answers (a late Reply blocked or killed it?)", fr.op.String())})
 	}
 	s.Sleep(100 * time.Millisecond)
+	// Last of all: a question whose answer is followed by the actor closing itself. The asker talks to the actor
+	// directly (no proxy). The answer was given in time, so the asker gets it, closed actor or not.
+	msg++
+	lr := &c13Req{msg: msg, spec: c13Ask{Via: "AskOnceWithTimeout", Policy: "reply-then-close", Timeout: 10 * time.Minute}}
+	byMsg[msg] = lr
+	lask := fpgo.AskNewGenerics[int, int](lr.msg)
+	var lop *Op
+	lt := s.Go("last-asker", func() {
+		lop = h.Do("last-asker", "AskOnceWithTimeout", lr.msg, func() (interface{}, error) { return lask.AskOnceWithTimeout(actor, 10*time.Minute) })
+	})
+	if !s.WaitUntilTimeout(lt.Done, 30*time.Minute) {
+		sc.extra = append(sc.extra, Violation{Clause: "hang", Fingerprint: "ask-answered-by-a-closing-actor-never-returns", Detail: "AskOnceWithTimeout to an actor that replies and then closes itself never returned"})
+	} else if lop != nil && lop.Panic == "" && (lop.Err != nil || lop.Val != c13f(lr.msg)) {
+		sc.extra = append(sc.extra, Violation{Clause: "timeout", Fingerprint: "answer-of-a-closing-actor-lost",
+			Detail: fmt.Sprintf("the actor replied %d and then closed itself; %s (timeout 10min), want the reply with a nil error", c13f(lr.msg), lop.String())})
+	}
+	sc.probes["ask-answered-by-an-actor-that-then-closes"]++
 }
 
 func (sc *c13Scenario) Check(res *simrt.Result) []Violation {
